@@ -76,6 +76,7 @@ type G struct {
 	depth  int    // nesting of configured functions running on it
 	curOp  *POp
 	panicV any
+	passed int // preemption gates passed (position in the straight-line program of MockImpl)
 }
 
 // Event is one line of a schedule's log.
@@ -159,6 +160,7 @@ func (s *Sched) park(gt gate) {
 		((gt.kind == gYieldR || gt.kind == gYieldW) && s.focusAddr != nil && !s.focusAddr(gt.addr, gt.size)) {
 		if s.enabled(g) {
 			s.apply(g)
+			g.passed--
 			return
 		}
 	}
@@ -236,6 +238,7 @@ func (s *Sched) apply(g *G) {
 		}
 	}
 	g.local = h
+	g.passed++
 	s.log(g, gateNames[gt.kind], lockName, "", nil)
 }
 
